@@ -287,7 +287,11 @@ func (r *result) confirmations(chain string) {
 			for dn, digest := range digests {
 				for _, prefixChain := range []string{chain, otherChain} {
 					raw, _ := hex.DecodeString(scen.Sign(prefixChain, key, digest))
-					encs := map[string][]byte{"v=0/1": raw, "v=27/28": append(append([]byte{}, raw[:64]...), raw[64]+27), "malleated-s": malleate(raw), "64-bytes": raw[:64], "66-bytes": append(append([]byte{}, raw...), 0), "empty": {}}
+					encs := map[string][]byte{"v=0/1": raw, "v=27/28": append(append([]byte{}, raw[:64]...), raw[64]+27), "malleated-s": malleate(raw), "64-bytes": raw[:64], "66-bytes": append(append([]byte{}, raw...), 0), "empty": {},
+						// recovery bytes the external contract's ecrecover rejects (it accepts 27 / 28 only): such a signature is
+						// not usable there, so a confirmation carrying it must not be accepted
+						"v=29/30": append(append([]byte{}, raw[:64]...), raw[64]+29), "v=35/36": append(append([]byte{}, raw[:64]...), raw[64]+35), "v=37/38": append(append([]byte{}, raw[:64]...), raw[64]+37),
+						"v=147/148": append(append([]byte{}, raw[:64]...), raw[64]+147), "v=2/3": append(append([]byte{}, raw[:64]...), raw[64]+2)}
 					for en, sig := range encs {
 						for bn, bridger := range map[string]string{"B1": os[0].Bridger.Bech(), "B2": os[1].Bridger.Bech()} {
 							for xn, extAddr := range map[string]string{"K1-address": os[0].ExtAddr, "K2-address": os[1].ExtAddr} {
